@@ -352,6 +352,10 @@ for _pid in ("C02", "C09"):
                                   "oracle": False, "mismatch_is_failure": True, "timeout": 3400,
                                   "nontrivial": lambda case, res: case.count(" ") >= 4, "distinct_key": lambda case, res: case,
                                   "what": "T-eq for Model.Gate (hook H12): Record::successor_is_durable_or_deleted -- the gate consulted before a superseded generation's extent is retired -- on synthetic forward successor chains of 1-9 generations with every mix of durable, live, deleted and superseded nodes and of memo bits; the answer and the memo bits afterwards must equal Model.Gate.gate"})
+REGISTRY["C12"]["teq"].append({"engine": "clocksim", "quick": {"n": 4000, "seedoff": 712}, "thorough": {"n": 150000, "seedoff": 712},
+                                "oracle": False, "mismatch_is_failure": False, "timeout": 3400,
+                                "nontrivial": lambda case, res: " 0," in case and " 1," in case, "distinct_key": lambda case, res: case,
+                                "what": "T-eq for Model.Clock (hook H14): a fresh VersionClock shard started at a chosen value and driven call by call -- next(key, wall) and observe(key, ts) with walls and timestamps below, at and above the shard, around 2^64-1 included; the timestamp issued and the shard value after every call must equal Model.Clock.next_alone / observe_alone (non-trivial = the sequence has both kinds of call)"})
 REGISTRY["C16"]["teq"].append({"engine": "cgen", "quick": {"n": 4000, "seedoff": 616}, "thorough": {"n": 120000, "seedoff": 616},
                                 "oracle": False, "mismatch_is_failure": False, "timeout": 3400,
                                 "nontrivial": lambda case, res: any(t != "-" and int(t) >= 100 for t in res.split()), "distinct_key": lambda case, res: case,
